@@ -59,6 +59,47 @@ class Ctx:
             raise RuntimeError(f'implementation run {module}.{fn} failed: {doc["error"]}\n{doc["trace"][-2000:]}')
         return doc['result']
 
+    def run_impl_resilient(self, module, fn, payload, key='cases', extra_env=None, timeout=240, budget=4):
+        """run_impl for functions mapping payload[key] (a list of cases) to a list of per-case outcomes, surviving a crash of
+        the implementation process (heap corruption by an out-of-bounds write, abort, segfault).  The function streams its
+        per-case outcomes (implrun.stream); when the interpreter dies the outcomes produced so far are kept, the case that
+        was running comes back as {'class': 'crash'} and the run resumes after it in a fresh interpreter."""
+        cases = payload[key]
+        out = [None] * len(cases)
+        start, launches = 0, 0
+        while start < len(cases):
+            launches += 1
+            stream = os.path.join(self.scratch, f'stream_{os.getpid()}_{id(cases)}_{launches}.jsonl')
+            try:
+                res = self.run_impl(module, fn, dict(payload, **{key: cases[start:], '_stream': stream}), extra_env, timeout)
+                out[start:] = res
+                break
+            except (RuntimeError, subprocess.TimeoutExpired) as e:
+                msg = str(e)[:300]
+                if 'died' not in msg and not isinstance(e, subprocess.TimeoutExpired):
+                    raise
+                done = []
+                if os.path.exists(stream):
+                    with open(stream) as f:
+                        for line in f:
+                            try:
+                                done.append(json.loads(line))
+                            except ValueError:
+                                break
+                done = done[:len(cases) - start]
+                out[start:start + len(done)] = done
+                k = start + len(done)
+                if k < len(cases):
+                    out[k] = {'class': 'crash', 'error': 'the implementation process died while running this case: ' + msg}
+                start = k + 1
+                if launches >= budget:
+                    for q in range(start, len(cases)):
+                        out[q] = {'class': 'crash', 'error': 'not run: the implementation process kept dying (' + msg + ')'}
+                    break
+        if launches > 1:
+            self.notes.append(f'{module}.{fn}: the implementation process died {launches - 1} time(s); resumed after the case that was running')
+        return out
+
     def cleanup(self):
         shutil.rmtree(self.scratch, ignore_errors=True)
 
